@@ -15,7 +15,7 @@ SPEC = {
     'min_nontrivial': 2000,
     'budget_s': {'quick': 35, 'thorough': 360},
     'assumptions': ['month/year arithmetic whose day of month does not exist in the target month is judged only for not crashing',
-                    'default zone UTC'],
+                    'the default zone is varied; it labels a date and must not move it'],
 }
 
 UNIT_CONST = {'day': 1, 'week': 2, 'month': 3, 'year': 4}
@@ -67,7 +67,7 @@ def spell(rng, lang, d, today, force_year=False):
     return '%s %d, %d' % (name, d.day, d.year), f
 
 
-def expected_print(lang, d, today):
+def expected_print(lang, d, today, zone='UTC'):
     """set of acceptable printed forms"""
     fmts = lex.date_formats(lang)
     fmt = fmts['current_year'] if d.year == today.year else fmts['full_date']
@@ -78,7 +78,7 @@ def expected_print(lang, d, today):
             cap = lambda s: (s[0].upper() + s[1:]) if s else s
             outs.add(fmt.replace('{day_pad}', '%02d' % d.day).replace('{month_pad}', '%02d' % d.month).replace('{day}', str(d.day))
                      .replace('{month_long}', cap(ln)).replace('{month_short}', cap(sn)).replace('{month}', str(d.month))
-                     .replace('{year}', str(d.year)).replace('{timezone}', 'UTC'))
+                     .replace('{year}', str(d.year)).replace('{timezone}', zone))
     return outs
 
 
@@ -145,10 +145,13 @@ def run_shard(ctx):
     clock_name, epoch = ctx.clock_for_shard()
     today = mon.virtual_now(epoch).date()
     drv = ctx.driver(epoch, rw=True)
-    cfg = mon.cfg_with()
     langs = lex.languages()
     res.notes.append('shard %d: virtual date %s' % (ctx.shard, today))
     while not ctx.out_of_time():
+        # the default zone labels a date but never moves it: the calendar day read, computed and printed is the same under every zone
+        dz = rng.choice(['UTC', 'UTC', 'UTC', 'EST', 'PST', 'GMT-12', 'GMT-0:30', 'CET', 'NZDT', 'IST', 'GMT+14'])
+        cfg = mon.cfg_with(tz=dz)
+        res.cover('default zone', dz)
         items, meta = [], []
         for _ in range(150):
             lang = rng.choice(langs)
@@ -291,10 +294,19 @@ def run_shard(ctx):
             else:
                 want = exp[1]
                 if want == 'missing-day':
-                    res.count('missing_day_cases_not_judged')
+                    # the day of the month cannot be kept: which answer to give instead is not stated (an error is what the
+                    # implementation gives), but a *date* answer with another day of the month contradicts "keeps the day of the month"
+                    res.count('missing_day_cases')
                     if k == 'abnormal':
                         problem = mon.describe(slot)
                         sig = 'date:missing-day-abnormal:%s' % cls.split(':')[1]
+                    elif k == 'date' and len(exp) > 5 and exp[5] in ('month', 'year'):
+                        g = parse_ymd(slot['v']['d'])
+                        n_months = exp[6] * (12 if exp[5] == 'year' else 1)
+                        borrow_lost = exp[4] < 0 and (exp[2].month - n_months % 12) <= 0        # the known finding moves the year, not the day
+                        if g is not None and g[2] != exp[2].day and not borrow_lost:
+                            problem = 'the day of the month is not kept: %s' % mon.describe(slot)
+                            sig = 'date:missing-day-other-day:%s' % cls.split(':')[1]
                 elif k != 'date':
                     problem = 'expected the date %s, got %s' % (want, mon.describe(slot))
                     if k == 'abnormal':
@@ -321,7 +333,7 @@ def run_shard(ctx):
                             if (exp[2].month - n_months % 12) <= 0 and got == add_months(want, 12):
                                 sig = 'date:month-subtraction-loses-year-borrow'
                     else:
-                        outs = expected_print(lang, want, today)
+                        outs = expected_print(lang, want, today, dz)
                         if slot['out'] not in outs:
                             problem = '%s prints %r, expected %s' % (want, slot['out'], sorted(outs))
                             sig = 'date:print:%s' % lang
@@ -331,5 +343,5 @@ def run_shard(ctx):
                     res.sample({'lang': lang, 'virtual_today': str(today), 'text': text, 'observed': mon.describe(slot)})
                 continue
             res.violation(sig, '%r (%s, today = %s): %s' % (text, lang, today, problem),
-                          {'config': cfg, 'lang': lang, 'text': text, 'epoch': epoch, 'clock': clock_name, 'observed': mon.describe(slot),
+                          {'config': dict(cfg), 'lang': lang, 'text': text, 'epoch': epoch, 'clock': clock_name, 'observed': mon.describe(slot),
                            'ops': mon.gh.config_ops(cfg) + [{'op': 'execute', 'lang': lang, 'text': text}]})
